@@ -13,7 +13,8 @@ import (
 
 // ---- C16: Pick / Omit / Extend / Merge and later builder calls ----------------------------------
 
-var helperKeys = []string{"a", "b", "c", "d", "e", "f"}
+// (two keys that differ only in the case of their first letter name the same destination field and are different keys)
+var helperKeys = []string{"a", "b", "c", "d", "e", "f", "A", "B"}
 
 // keys whose field is always a nested struct (over some of the sub-keys x, y: which ones depends on the version)
 var helperNested = map[string]bool{"e": true, "f": true}
@@ -22,7 +23,12 @@ var helperNested = map[string]bool{"e": true, "f": true}
 // schema fits this destination
 var helperDest = func() reflect.Type {
 	var fs []reflect.StructField
+	seen := map[string]bool{}
 	for _, k := range helperKeys {
+		if seen[strings.ToUpper(k)] {
+			continue
+		}
+		seen[strings.ToUpper(k)] = true
 		t := reflect.TypeOf("")
 		if helperNested[k] {
 			t = reflect.TypeOf(struct{ X, Y string }{})
